@@ -40,6 +40,7 @@ func (b *Block) Decrypt(dst, src []byte) {
 
 // Init declares the inverse laws; every harness using these stubs calls it first.
 func Init() {
+	macComputed, macSigned, MACStrict = nil, nil, false
 	zzverif.UFInverse("E", "D")
 	zzverif.UFLeftInverse("Seal", "OpenPT")
 	zzverif.UFLeftInverse("B64", "B64D")
@@ -265,7 +266,65 @@ func (h *Hash) Write(p []byte) (int, error) {
 	return len(p), nil
 }
 func (h *Hash) Sum(b []byte) []byte {
-	return append(b, zzverif.UFBytes(h.Name, h.Sz, h.Key, h.Data)...)
+	res := append(b, zzverif.UFBytes(h.Name, h.Sz, h.Key, h.Data)...)
+	if h.Key != nil && len(b) == 0 {
+		macComputed = append(macComputed, macRec{h.Name, h.Key, append([]byte{}, h.Data...), res})
+	}
+	return res
+}
+
+// ---- ideal MAC (unforgeability as an assumption) -------------------------------------------------------------------
+// Every HMAC tag computed on the path is recorded. A harness marks the tags computed so far as SIGNED (authentic) with
+// MACMarkSigned and then sets MACStrict: from then on CTCompare (standing in for crypto/subtle.ConstantTimeCompare)
+// of a freshly computed tag against any other value succeeds only if the tag's (key, message) equals a signed pair
+// and the other value equals that signed tag - a tag for a pair that was never signed matches nothing.
+
+type macRec struct {
+	name           string
+	key, data, out []byte
+}
+
+var macComputed, macSigned []macRec
+
+// MACStrict: see above
+var MACStrict bool
+
+func MACMarkSigned() { macSigned = append(macSigned, macComputed...) }
+
+func ctPlain(x, y []byte) int {
+	if len(x) != len(y) {
+		return 0
+	}
+	if zzverif.EqBytes(x, y) {
+		return 1
+	}
+	return 0
+}
+
+func CTCompare(x, y []byte) int {
+	if !MACStrict {
+		return ctPlain(x, y)
+	}
+	for i := len(macComputed) - 1; i >= 0; i-- {
+		c := macComputed[i]
+		var other []byte
+		switch {
+		case zzverif.SameArray(x, c.out):
+			other = y
+		case zzverif.SameArray(y, c.out):
+			other = x
+		default:
+			continue
+		}
+		for _, s := range macSigned {
+			if s.name == c.name && len(s.key) == len(c.key) && len(s.data) == len(c.data) &&
+				zzverif.EqBytes(s.key, c.key) && zzverif.EqBytes(s.data, c.data) {
+				return ctPlain(other, s.out)
+			}
+		}
+		return 0
+	}
+	return ctPlain(x, y)
 }
 func (h *Hash) Reset()         { h.Data = nil }
 func (h *Hash) Size() int      { return h.Sz }
@@ -278,6 +337,8 @@ func NewSHA512() hash.Hash { return &Hash{Name: "SHA512", Sz: 64} }
 // HashNew models (crypto.Hash).New for the three SHA-2 functions kit uses.
 func HashNew(h uint) hash.Hash {
 	switch h {
+	case 3:
+		return &Hash{Name: "SHA1", Sz: 20}
 	case 5:
 		return NewSHA256()
 	case 6:
